@@ -37,6 +37,16 @@ AVOID = {
 }
 
 EMPHASIS = {
+    16: ("This time make the violation need TWO COOPERATING SITES or a MULTI-STEP SEQUENCE: either two small edits in different functions that each look "
+         "harmless alone (for instance one function starts returning a differently shaped / ordered / scaled but still valid intermediate, and a second one "
+         "silently relies on the old convention only in one of its branches), or a single edit whose wrong result only shows after a specific sequence of "
+         "three or more public calls whose results feed into each other (construct, transform, index, intersect, compare). Assume that the property is also "
+         "guarded by a strong randomised (property-based) test suite that draws every coordinate type and collection shape, degenerate and nearly degenerate "
+         "configurations, compares every equivalent way of asking the same question and re-inspects earlier results after later calls - so prefer a mistake in "
+         "the LOGIC of a less travelled branch (case distinction, pairing / ordering of elements, orientation convention, axis mix-up hidden by symmetric or "
+         "square data, off-by-one over vertices / faces / axes). Say in NOTES.md why you believe it is hard to find. "
+         "Do NOT use memoisation / caching / shared buffers, do not mutate an argument in place, and do not make the change depend on magnitudes, dtypes, "
+         "tolerances or collection sizes."),
     15: ("This time the choice is yours. Assume that the property is guarded by a strong randomised (property-based) test suite written by someone who "
          "knows the library well, in addition to the existing unit tests. That suite already draws: decimal and integer coordinates of every array type, "
          "collections with one to three axes and with 64 and more elements (also as overlapping views of one collection), objects far from the origin, tiny radii, "
